@@ -377,6 +377,18 @@ class CFG:
         """None if every normal path start->exit passes a `through` node; else a witness."""
         return self.path_avoiding(start, lambda n: n is self.exit, through)
 
+    def only_through_edge(self, t: Node, label: Any, n: Node) -> bool:
+        """Every path from the entry to `n` leaves test node `t` through its `label` edge last: `t` dominates `n` and `n` cannot
+        be reached from the other successors of `t` without coming back to `t`."""
+        if not self.dominates(t, n) or n is t:
+            return False
+        for s2, lab in t.succ:
+            if lab == label or lab == 'exc':
+                continue
+            if s2 is n or self.path_avoiding(s2, lambda x: x is n, lambda x: x is t, skip_start=False) is not None:
+                return False
+        return True
+
     def can_reach(self, a: Node, b: Node, follow_exc: bool = False) -> bool:
         return self.path_avoiding(a, lambda n: n is b, lambda n: False, follow_exc) is not None
 
